@@ -11,7 +11,7 @@ from litedram.common import LiteDRAMNativePort
 from litedram.frontend.adapter import LiteDRAMNativePortConverter
 
 from ..engine import Sim
-from ..agents import NativeMaster, NativeMemSlave, RefMem, Violations, word_of, init_byte
+from ..agents import StallCounter, NativeMaster, NativeMemSlave, RefMem, Violations, word_of, init_byte
 
 ID = "C07"
 LEVEL = "exploration"
@@ -135,6 +135,7 @@ def run(scn):
     samp = StateSampler(sim, [cv.fsm.state, pf.cmd.valid, pf.cmd.ready, pf.cmd.we, pf.wdata.ready, pf.rdata.valid, pt.cmd.valid, pt.cmd.ready,
                               pt.wdata.ready, pt.rdata.valid])
     mas = NativeMaster(sim, pf, ops, on_cmd=on_cmd, on_rdata=on_rdata)
+    sc_mem = StallCounter(sim, pt.cmd.valid, pt.cmd.ready)
     nflush = sum(1 for o in ops if "flush" in o)
     stats["flush_pulses"] = nflush
     sim.add_agent("sys", mas)
@@ -185,6 +186,7 @@ def run(scn):
             if mem.ncmd != view.r * mas.ncmd:
                 viol.add("cmd_count", "down-converter issued %d memory commands for %d user commands (ratio %d)" % (mem.ncmd, mas.ncmd, view.r))
     stats["mem_cmds"] = mem.ncmd
+    stats["mem_cmd_stall_cycles"] = sc_mem.n
     stats["merged_cmds"] = max(0, mas.ncmd - mem.ncmd) if view.up else 0
     stats["split_cmds"] = mem.ncmd if not view.up else 0
     stats["delayed_grants"] = sum(1 for e in (m.get("extra") or []) if e)
